@@ -17,6 +17,7 @@ func Register(s Suites) {
 	s.Add("C11", runC11)
 	s.Add("C08", runC08)
 	s.Add("C15", runC15)
+	s.Add("C15", runC15Rst)
 	s.Add("C11", runExt12C11)
 	s.Add("C08", runExt12C08)
 }
@@ -34,6 +35,7 @@ type layout struct {
 	sosEnd int // first byte after the SOS segment
 	w, h   int
 	nc     int
+	ri     int      // DRI value, 0 if there is no DRI segment
 	comps  [][3]int // SOF0: id, H, V
 	sel    [][3]int // SOS: component selector, Td, Ta
 	err    string
@@ -101,6 +103,10 @@ func walk(s []byte) layout {
 				for i := 0; i < l.nc && 6+3*i+2 < len(d); i++ {
 					l.comps = append(l.comps, [3]int{int(d[6+3*i]), int(d[7+3*i] >> 4), int(d[7+3*i] & 15)})
 				}
+			}
+		case 0xDD:
+			if n == 4 {
+				l.ri = int(s[p+4])<<8 | int(s[p+5])
 			}
 		case 0xDA:
 			d := s[p+4 : p+2+n]
